@@ -5501,7 +5501,11 @@ evdns_cache_lookup(struct evdns_base *base,
 			if (want_cname) {
 				ai_new->ai_canonname = mm_strdup(e->ai_canonname);
 			}
-			sockaddr_setport(ai_new->ai_addr, port);
+			{
+				struct evutil_addrinfo *p; /* may be a TCP+UDP pair */
+				for (p = ai_new; p; p = p->ai_next)
+					sockaddr_setport(p->ai_addr, port);
+			}
 			ai = evutil_addrinfo_append_(ai, ai_new);
 		}
 	}
@@ -5761,7 +5765,11 @@ evdns_getaddrinfo_fromhosts(struct evdns_base *base,
 			n_found = 0;
 			goto out;
 		}
-		sockaddr_setport(ai_new->ai_addr, port);
+		{
+			struct evutil_addrinfo *p; /* may be a TCP+UDP pair */
+			for (p = ai_new; p; p = p->ai_next)
+				sockaddr_setport(p->ai_addr, port);
+		}
 		ai = evutil_addrinfo_append_(ai, ai_new);
 	}
 	EVDNS_UNLOCK(base);
